@@ -2355,6 +2355,10 @@ func (t *treasure) Uint32SlicePush(values []uint32) error {
 	}
 	if t.treasure.Content.Uint32Slice == nil {
 		t.treasure.Content.Uint32Slice = new(Uint32Slice)
+		// the content now carries an (empty) slice it did not have before: without this flag a
+		// push of no new values onto a loaded treasure is answered from memory (slice size 0)
+		// but never written, so the slice is gone after the next reload
+		t.contentChanged = true
 	}
 
 	// Konvertáljuk a meglévő slice-ot egy gyors lookup map-pé
